@@ -256,6 +256,31 @@ def oracle(req_, impl):
         if ("'" not in s or '"' not in s) and d not in ("none", "'", '"'):
             return "single line with room admits a single-quoted form, %s recommended" % d
     # read-back through the real parser
+    # text-field recommendations through the real WRITER (fold / prefix protocol where the analysis asks for it) and back: whatever
+    # the line lengths, `<LF>;` sequences or reserved starts, the value comes back as exactly that string (modulo the parser's
+    # EOL normalisation of CR, see below), quoted, with no error reported
+    for p in probes or []:
+        q = p.split(":")
+        if q[0] != "W":
+            continue
+        if len(q) != 9:
+            return "probe W did not run: %s" % p
+        if not cif2_string(units):
+            continue
+        _, wrc, rc, nerr, ferr, items, kind, quoted, text = q
+        if int(wrc) != 0:
+            return "probe W (text field through cif_write): cif_write returned %s" % wrc
+        if int(rc) != 0 or int(nerr) != 0:
+            return "probe W (text field through cif_write): cif_parse rc=%s, %s errors, first error code %s" % (rc, nerr, ferr)
+        if int(items) != 1 or int(kind) != 0:
+            return "probe W (text field through cif_write): %s items, kind %s" % (items, kind)
+        # (the writer analyses the value itself - as a quoted value, triple quotes allowed, limit 2048 - and may choose another
+        #  delimiter than this request's flags gave; for CR-containing strings the two presentations normalise differently)
+        if unhexs(text) not in (eol_norm(units + [10])[:-1], eol_norm(units)):
+            return "probe W (text field through cif_write, fold / prefix protocol): read back %s" % text
+        if int(quoted) != 1:
+            return "probe W (text field through cif_write): quoted flag %s" % quoted
+    probes = [p for p in (probes or []) if not p.startswith("W:")]
     if probes and probes[0] not in ("none", "proto") and cif2_string(units) and want["max"] <= 2048 \
             and not (d == "text" and want["first"] + 1 > 2048):      # ';' + first line over-long: needs the fold protocol
         # the parser normalises CR LF and CR to LF before tokenising (C08), so a string containing CR can only come back
